@@ -209,20 +209,26 @@ Print Assumptions C03_pred_flag.
 (* the model's tables are the ones in /repo *)
 Example C03_keywords_match_source : model_keywords_ci = keywords_case_insensitive.
 Proof. vm_compute. reflexivity. Qed.
+Print Assumptions C03_keywords_match_source.
 Example C03_case_sensitive_keywords_match_source :
   forall L, model_keywords_cs L = keywords_case_sensitive.
 Proof. reflexivity. Qed.
+Print Assumptions C03_case_sensitive_keywords_match_source.
 Example C03_grammar_precedence_matches : model_grammar_precedence = grammar_precedence.
 Proof. vm_compute. reflexivity. Qed.
+Print Assumptions C03_grammar_precedence_matches.
 Example C03_parser_levels : parser_levels_ok = true.
 Proof. vm_compute. reflexivity. Qed.
+Print Assumptions C03_parser_levels.
 
 (* finding (d), with the real Unicode tables *)
 Example C03_kelvin_sign_keyword :
   ident_token CL (string_of_runes [8490; 101; 121; 118; 97; 108; 117; 101]) = TKw KKeyvalue.
 Proof. exact kelvin_keyvalue. Qed.
+Print Assumptions C03_kelvin_sign_keyword.
 Example C03_dotted_capital_I_keyword : ident_token CL (string_of_runes [304; 115]) = TKw KIs.
 Proof. exact dotted_I_is. Qed.
+Print Assumptions C03_dotted_capital_I_keyword.
 
 (* spellings, on the concrete library *)
 Example C03_spellings_same_tree :
@@ -233,3 +239,4 @@ Example C03_spellings_same_tree :
         [1; 2; 3; 4; 5] ++
     [POk (mkpath true true [SBin BNe [SConst CRoot; SKey "a"] [SBin BSub [SInteger 10] [SInteger 9]]])].
 Proof. vm_compute. reflexivity. Qed.
+Print Assumptions C03_spellings_same_tree.
